@@ -103,6 +103,7 @@ func c06BiasedLen(r *rand.Rand, max int) int {
 }
 
 func checkC06(c *Ctx) {
+	duplexStress(c, "C06")
 	c.SetRule("one case = one session pair with 1..20 messages; every message goes real Encrypt -> (reference wire format, model descriptors " +
 		"sealed with x/crypto, peer Decrypt, byte-level model decrypt). non-trivial = more than one frame, or a reader that does not deliver " +
 		"the payload in one Read, or more than one message, or a non-zero start counter. distinct = distinct canonical model lines")
